@@ -4,7 +4,7 @@ the whole-program Lean model (`asm`) on the same programs."""
 import json
 import os
 
-from . import impl, asmrun
+from . import impl, asmrun, internals
 from .gen import ProgramGen, render, Item
 
 PRACTICE = os.path.join(impl.REPO, "tests", "practice")
@@ -221,12 +221,17 @@ def run(ctx):
     answers = ctx.driver.ask(reqs)
     for (nm, k), a in zip([(nm, k) for nm in names for k in range(0, 9)], answers):
         cmd = mi.metacommands[nm]
-        if callable(cmd.size):
-            want = str(cmd.size(None, *([None] * k)))
-        elif cmd.size is None:
+        try:
+            size_attr = internals.get(cmd, "size", None, ("size",))
+        except internals.TieBroken as tb:
+            ctx.disagree("tie to metacommand_impl.Metacommand (the announced size)", {"missing": str(tb)}, "an attribute holding the announced size", "not found")
+            break
+        if callable(size_attr):
+            want = str(size_attr(None, *([None] * k)))
+        elif size_attr is None:
             want = "none"
         else:
-            want = str(cmd.size)
+            want = str(size_attr)
         ctx.case(("asize", nm, k), nontrivial=False)
         if a != want:
             ctx.disagree("announced size", (nm, k), a, want)
